@@ -5,8 +5,10 @@ import (
 	"math/big"
 
 	errorsmod "cosmossdk.io/errors"
+	sdkmath "cosmossdk.io/math"
 	cpckeeper "github.com/EscanBE/evermint/v12/x/cpc/keeper"
 	sdk "github.com/cosmos/cosmos-sdk/types"
+	authtypes "github.com/cosmos/cosmos-sdk/x/auth/types"
 
 	"github.com/ethereum/go-ethereum/common"
 	"github.com/ethereum/go-ethereum/core"
@@ -151,9 +153,32 @@ func (k *Keeper) ApplyTransaction(ctx sdk.Context, tx *ethtypes.Transaction) (*e
 		return nil, errorsmod.Wrap(err, "failed to apply ethereum core message")
 	}
 
+	if k.IsSenderPaidTxFeeInAnteHandle(ctx) && msg.Gas() > res.GasUsed {
+		// The state transition credited the sender with the fee of the unused gas by minting it,
+		// while the fee collector still holds the full fee (gas limit * price) deducted by the AnteHandle.
+		// Take the refunded amount out of the fee collector and burn it, otherwise the refund is created out of thin air.
+		refund := new(big.Int).Mul(new(big.Int).SetUint64(msg.Gas()-res.GasUsed), msg.GasPrice())
+		if err := k.burnRefundedFeeFromFeeCollector(ctx, cfg.Params.EvmDenom, refund); err != nil {
+			k.ResetGasMeterAndConsumeGas(ctx, ctx.GasMeter().Limit())
+			return nil, errorsmod.Wrap(err, "failed to settle the gas refund with the collected fee")
+		}
+	}
+
 	// reset the gas meter for current cosmos transaction
 	k.ResetGasMeterAndConsumeGas(ctx, res.GasUsed)
 	return res, nil
+}
+
+// burnRefundedFeeFromFeeCollector removes the given amount, which was refunded to the sender, from the fee collector.
+func (k *Keeper) burnRefundedFeeFromFeeCollector(ctx sdk.Context, denom string, refund *big.Int) error {
+	if refund.Sign() <= 0 {
+		return nil
+	}
+	refundCoins := sdk.NewCoins(sdk.NewCoin(denom, sdkmath.NewIntFromBigInt(refund)))
+	if err := k.bankKeeper.SendCoinsFromModuleToModule(ctx, authtypes.FeeCollectorName, evmtypes.ModuleName, refundCoins); err != nil {
+		return err
+	}
+	return k.bankKeeper.BurnCoins(ctx, evmtypes.ModuleName, refundCoins)
 }
 
 // ApplyMessage calls ApplyMessageWithConfig with an empty TxConfig.
